@@ -5,7 +5,7 @@
    recorded selection lists equal the routing that happened is compared on every explored
    factory (S lines vs. put/get lines) -- not proved for every configuration (partial). *)
 From Coq Require Import List ZArith Bool Arith Lia.
-From FV Require Import SrcFragments Accounting World Factory.
+From FV Require Import SrcFragments Accounting TieAcc World Factory.
 Import ListNotations.
 Open Scope Z_scope.
 
